@@ -14,6 +14,10 @@ ORACLE = {
     "record": "\\n{sha256hex(json)}\\t{json}",
     "json_fields": ["key", "integrity", "time", "size", "metadata", "raw_metadata"],
     "integrity_field_type": "std::option::Option<std::string::String>",
+    # what the derived serializer hands to serde for each field: the field itself, with its own type (a `#[serde(with = ..)]`,
+    # `serialize_with`, `flatten` ... would put a wrapper or another representation — hex text for bytes, say — on disk)
+    "json_field_encodings": ["std::string::String", "std::option::Option<std::string::String>", "u128", "usize", "serde_json::Value",
+                             "std::option::Option<std::vec::Vec<u8>>"],
     "reader_field_separator": "\t",
     "reader_checksum": "sha256hex(fields[1]) == fields[0]",
     "listing_root": ["{cache}", "index-v5"],
@@ -163,6 +167,14 @@ def check_config(cfg, w, rep):
                     names.append(t.args[1].const_str)
             where["json_fields"] = lf.body.loc()
     desc["json_fields"] = names
+    encs = []
+    for p, lf in prog.fns.items():
+        if rt and rt in p and p.endswith("::serialize") and "Serialize for" in p:
+            for blk, t in lf.body.calls():
+                if t.callee is not None and t.callee.path.endswith("SerializeStruct::serialize_field"):
+                    encs.append((t.callee.args or ["?"])[-1])
+            where["json_field_encodings"] = lf.body.loc()
+    desc["json_field_encodings"] = encs
     ity = None
     for (v, f, ty) in w.adt_fields(rt or ""):
         if f == "integrity":
